@@ -64,6 +64,8 @@ def _frontier(args):
     task = [t for t in m.TASKS if t.name == name][0]
     it = Interp()
     h = task.setup(it)
+    if isinstance(h, tuple) and h[0] == "pair":
+        h = h[1]
     return it.frontier(h, depth)
 
 
@@ -81,7 +83,12 @@ def _run_task(args):
         it.tier = tier
         it.seed = seed
         h = task.setup(it)
-        res = it.run(h, name, time_limit=getattr(task, "time_limit", 1500), prefixes=prefixes)
+        if isinstance(h, tuple) and h[0] == "product":
+            res = it.run_product(h[1], h[2], h[3], name)
+        elif isinstance(h, tuple) and h[0] == "pair":
+            res = it.run_pair(h[1], h[2], h[3], name, time_limit=getattr(task, "time_limit", 1500), prefixes=prefixes)
+        else:
+            res = it.run(h, name, time_limit=getattr(task, "time_limit", 1500), prefixes=prefixes)
         funcs = {}
         for k in set(task.functions) | {f for f in res.functions_entered}:
             try:
